@@ -738,6 +738,11 @@ def oracle_norm(a, icfg, scfg, with_data=True):
             return ("exception", "CustomNormalization raised %r" % e)
         mask = np.ma.getmaskarray(out).ravel().tolist()
         vals = np.ma.getdata(out).astype(np.float64).ravel().tolist()
+        # rounding slack follows the dtype the implementation computed in (float32 data stay float32:
+        # one ulp is 1.2e-7); float64 results keep the 1e-9 / 1e-12 slack
+        odt = np.ma.getdata(out).dtype
+        rt = TOL if odt == np.float64 else 16 * float(np.finfo(odt).eps) if odt.kind == "f" else TOL
+        mt = MONO_TOL if odt == np.float64 else rt
         xs = [float(v) for v in arr.ravel().tolist()]
         fin = finite_values(a)
         if not (math.isfinite(vmin) and math.isfinite(vmax)):
@@ -773,29 +778,29 @@ def oracle_norm(a, icfg, scfg, with_data=True):
             else:
                 if mk:
                     return ("nan-masking", "input %r came back masked" % x)
-                if not (-TOL <= y <= 1 + TOL):
+                if not (-rt <= y <= 1 + rt):
                     return ("range", "datum %r mapped to %r outside [0, 1] (limits %r, %r)" % (x, y, vmin, vmax))
-                if x == math.inf and abs(y - 1) > TOL:
+                if x == math.inf and abs(y - 1) > rt:
                     return ("inf-clipping", "+inf mapped to %r, not 1" % y)
-                if x == -math.inf and abs(y) > TOL:
+                if x == -math.inf and abs(y) > rt:
                     return ("inf-clipping", "-inf mapped to %r, not 0" % y)
         pairs = sorted((x, y) for x, y, mk in zip(xs, vals, mask) if not mk)
         for (x1, y1), (x2, y2) in zip(pairs, pairs[1:]):
-            if y2 < y1 - MONO_TOL:
+            if y2 < y1 - mt:
                 return ("monotone", "not monotone: %r -> %r but %r -> %r (limits %r, %r)" % (x1, y1, x2, y2, vmin, vmax))
         if vmin < vmax:
             # frozen limits, evaluated on other data: endpoints, an interior point, neighbours
             if with_data:
                 probe = np.array([vmin, vmax, vmin + (vmax - vmin) * 0.375, vmin - 1.0, vmax + 1.0], dtype=np.float64)
                 po = np.ma.filled(N(probe), np.nan).astype(np.float64).tolist()
-                if abs(po[0]) > TOL:
+                if abs(po[0]) > rt:
                     return ("endpoints", "lower limit %r mapped to %r, not 0" % (vmin, po[0]))
-                if abs(po[1] - 1) > TOL:
+                if abs(po[1] - 1) > rt:
                     return ("endpoints", "upper limit %r mapped to %r, not 1" % (vmax, po[1]))
-                if not (po[3] <= po[0] + MONO_TOL and po[0] <= po[2] + MONO_TOL and po[2] <= po[1] + MONO_TOL
-                        and po[1] <= po[4] + MONO_TOL):
+                if not (po[3] <= po[0] + mt and po[0] <= po[2] + mt and po[2] <= po[1] + mt
+                        and po[1] <= po[4] + mt):
                     return ("monotone", "not monotone on probe %r -> %r" % (probe.tolist(), po))
-                if not (TOL < po[2] < 1 - TOL):
+                if not (rt < po[2] < 1 - rt):
                     return ("endpoints", "interior point mapped to %r (normalisation is constant?)" % po[2])
                 back = np.asarray(N.inverse(np.array(po[:3])), dtype=np.float64).tolist()
                 for xb, xo in zip(back, probe[:3].tolist()):
@@ -803,9 +808,9 @@ def oracle_norm(a, icfg, scfg, with_data=True):
                         return ("norm-inverse", "inverse(norm(%r)) = %r" % (xo, xb))
             else:
                 for x, y, mk in zip(xs, vals, mask):
-                    if x == vmin and abs(y) > TOL:
+                    if x == vmin and abs(y) > rt:
                         return ("endpoints", "lower limit %r mapped to %r, not 0" % (x, y))
-                    if x == vmax and abs(y - 1) > TOL:
+                    if x == vmax and abs(y - 1) > rt:
                         return ("endpoints", "upper limit %r mapped to %r, not 1" % (x, y))
     return None
 
